@@ -22,6 +22,7 @@ import OFV.Proofs.C03WeylSpec
 import OFV.Proofs.C03Canon3
 import OFV.Proofs.C03Exact
 import OFV.Proofs.C03Main
+import OFV.Proofs.C03Boson
 import Mathlib.Tactic.NormNum
 
 namespace OFV.C03
@@ -87,6 +88,13 @@ theorem normal_ordered_is_normal_fermion (tol : Rat) (a : Op) :
     exact Proofs.C02.adj_mono _ _ (fun l r hlr => okK_fermion_not_bad l r hlr) e.1 (h e he)
   obtain ⟨t, c⟩ := e
   simpa using hb
+
+/-- `is_normal_ordered(normal_ordered(op))` for every BosonOperator (valid action codes): the
+bubble sort leaves no annihilator left of a creator, and the stable index sort of the
+`BosonOperator` constructor keeps creators left of annihilators on every mode. -/
+theorem normal_ordered_is_normal_boson (tol : Rat) (a : Op) (hv : ∀ e ∈ a, ∀ f ∈ e.1, f.2 < 2) :
+    Model.C02.bosonIsNormalOrdered (normalOrdered tol .boson a) = true :=
+  normalOrdered_boson_isNormal tol a hv
 
 /-- A normal-ordered fermion term is a fixed point: `normal_ordered_ladder_term(t, c)` is the
 single term `{t: c}` (unless `|c| < tol`, which `+=` deletes). -/
